@@ -100,6 +100,7 @@ class VisitorFacts(object):
         self.repo = repo
         self.ci = repo.cls(VIS)
         self.handlers = {}     # node class name -> FuncInfo
+        self._inlined = {}
         for name, fi in self.ci.methods.items():
             if name.startswith('visit_'):
                 self.handlers[name[6:]] = fi
@@ -109,7 +110,58 @@ class VisitorFacts(object):
                 self.handlers[name[6:]] = self.handlers[v.id[6:]]
 
     def handler(self, cls):
-        return self.handlers.get(cls)
+        h = self.handlers.get(cls)
+        if h is not None and id(h) not in self._inlined:
+            self._inlined[id(h)] = self._inline_delegation(h)
+        return self._inlined[id(h)] if h is not None else None
+
+    def _inline_delegation(self, h):
+        """a handler whose whole body hands the node to another method of the visitor (`self.helper(node, [node.elt])`) is read as that
+        method with the arguments put in place of its parameters (one level; the rules look at what is done with `node.<field>`)"""
+        from .index import FuncInfo
+        body = h.main_body
+        core = [s_ for s_ in body if not (isinstance(s_, ast.Expr) and isinstance(s_.value, ast.Constant))]
+        if len(core) != 1 or not isinstance(core[0], (ast.Expr, ast.Return)) or not isinstance(core[0].value, ast.Call):
+            return h
+        call = core[0].value
+        pos = h.params()[0]
+        if not (isinstance(call.func, ast.Attribute) and isinstance(call.func.value, ast.Name) and pos and call.func.value.id == pos[0]):
+            return h
+        m = self.ci.methods.get(call.func.attr)
+        if m is None or m is h or call.func.attr in ('visit', 'generic_visit') or call.keywords or any(isinstance(a, ast.Starred) for a in call.args):
+            return h
+        mpos = m.params()[0]
+        if len(call.args) != len(mpos) - 1 or m.params()[1] or m.params()[3]:
+            return h
+        subst = dict(zip(mpos[1:], call.args))
+        fresh = ast.parse(ast.unparse(m.node)).body[0]
+
+        class Sub(ast.NodeTransformer):
+            def visit_Name(self, n):
+                if n.id in subst and isinstance(n.ctx, ast.Load):
+                    return ast.parse(ast.unparse(subst[n.id]), mode='eval').body
+                if n.id == mpos[0]:
+                    n.id = pos[0]
+                return n
+        stored = set(n.id for n in ast.walk(fresh) if isinstance(n, ast.Name) and isinstance(n.ctx, ast.Store))
+        if stored & set(subst):
+            return h          # the helper rebinds a parameter: not a plain substitution
+        fresh = Sub().visit(fresh)
+        fresh.name = h.node.name
+        fresh.args = ast.parse(ast.unparse(h.node)).body[0].args
+        ast.fix_missing_locations(fresh)
+        for par in ast.walk(fresh):
+            for ch in ast.iter_child_nodes(par):
+                ch._parent = par
+        fresh._parent = getattr(h.node, '_parent', None)
+        # positions: those of the helper, which is where the code is
+        off = m.node.lineno - 1
+        for n in ast.walk(fresh):
+            if hasattr(n, 'lineno'):
+                n.lineno += off
+            if getattr(n, 'end_lineno', None) is not None:
+                n.end_lineno += off
+        return FuncInfo(h.module, h.qualname, fresh, cls=h.cls, parent=h.parent)
 
     def reads_field(self, fi, field):
         nodep = fi.params()[0][1] if len(fi.params()[0]) > 1 else None
@@ -215,7 +267,8 @@ def rule_binders(check, rule):
                 check.holds(rule, site_of(h, h.node), 'visit_%s records the name bound by node.%s' % (cname, fn), key=key)
     check.floor(rule, 'identifier fields of the grammar', n, 15)
     # no handler may cut the generic traversal above a Name without a reviewed reason
-    for cname, h in sorted(vf.handlers.items()):
+    for cname in sorted(vf.handlers):
+        h = vf.handler(cname)
         if cname in ('Name', 'Nonlocal', 'Global'):
             continue
         key = 'traversal|visit_%s' % cname
@@ -226,8 +279,11 @@ def rule_binders(check, rule):
         elif vf.continues_traversal(h) or _calls_method(h, ('process_Call', 'process_parameters')):
             check.holds(rule, site_of(h, h.node), 'visit_%s continues the traversal of its children' % cname, key=key)
         elif cname == 'Attribute':
-            check.holds(rule, site_of(h, h.node), 'visit_Attribute stops: reading an attribute of *args/**kwargs does not rebind it (attribute calls '
-                        'are tainted by process_Call)', key=key)
+            # (until D41 this rule accepted a visit_Attribute that stops, on the belief that reading an attribute of *args/**kwargs cannot
+            # change it: `pop = kwargs.pop; pop('a')` does, and the object of the access may be a forwarding call)
+            check.violation(rule, site_of(h, h.node), 'visit_Attribute stops: an attribute taken from **kwargs without being called (pop = kwargs.pop) '
+                            'goes unnoticed, and so does whatever the object of the access is (a forwarding call: inner(*args, **kwargs).real)',
+                            key=key, witness="def f(*args, **kwargs):\n    pop = kwargs.pop\n    pop('a', None)\n    return inner(*args, **kwargs)")
         else:
             check.violation(rule, site_of(h, h.node), 'visit_%s neither visits its children nor calls generic_visit: names rebound below a %s node '
                             'go unnoticed' % (cname, cname), key=key, witness='a rebinding nested inside a %s node' % cname)
@@ -383,13 +439,35 @@ def rule_evaluation_order(check, rule):
             order = _visit_order(h)
             gi = [i for i, f in enumerate(order) if f == 'generators']
             ei = [i for i, f in enumerate(order) if f in ('elt', 'key', 'value')]
-            if gi and ei and max(gi) < min(ei) or (gi and not ei and _prescans_stores(h)):
+            if gi and ei and min(gi) < min(ei) or (gi and not ei and _prescans_stores(h)):
                 check.holds(rule, site_of(h, h.node), 'visit_%s visits the generators before the element' % cname, key=key)
             elif _prescans_stores(h):
                 check.holds(rule, site_of(h, h.node), 'visit_%s invalidates the names the comprehension binds before traversing it' % cname, key=key)
             else:
                 check.violation(rule, site_of(h, h.node), 'visit_%s does not visit the generators before the element' % cname, key=key,
                                 witness='[inner(*args, **kwargs) for args in xs]')
+    # a comprehension is a loop too: its element (and conditions) run once per item, so what a later part of the element does to a name
+    # has happened when a forwarding call earlier in it runs for the second item (D40)
+    for cname in COMPREHENSIONS:
+        h = vf.handler(cname)
+        key = 'order|%s|backedge' % cname
+        if h is None:
+            continue        # (reported above)
+        order = _visit_order(h)
+        elems = [f for f in getattr(ast, cname)._fields if f in ('elt', 'key', 'value')]
+        twice = all(order.count(f) >= 2 for f in elems) or _visits_body_twice(h)
+        dels = [d_ for d_ in ast.walk(h.node) if isinstance(d_, ast.Delete) and any('calls' in norm(t_) for t_ in d_.targets)]
+        trunc = [a_ for a_ in ast.walk(h.node) if isinstance(a_, ast.Assign) and any(isinstance(t_, ast.Subscript) and 'calls' in norm(t_.value)
+                                                                                    for t_ in a_.targets)]
+        if not twice:
+            check.violation(rule, site_of(h, h.node), 'visit_%s looks at the element once: a later part of it that mutates a name or hands it to other '
+                            'code does not reach the forwarding call earlier in it, although it does from the second item on' % cname, key=key,
+                            witness="[(inner(*args, **kwargs), kwargs.pop('b', None)) for _ in range(2)]")
+        elif not (dels or trunc):
+            check.violation(rule, site_of(h, h.node), 'visit_%s traverses the element twice and keeps the calls of both traversals' % cname, key=key)
+        else:
+            check.holds(rule, site_of(h, h.node), 'visit_%s accounts for the back-edge: the element is traversed twice and the calls of the first '
+                        'traversal are dropped' % cname, key=key)
     for cname in LOOPS:
         key = 'order|%s' % cname
         h = vf.handler(cname)
@@ -1774,3 +1852,46 @@ def rule_enclosing_lookup(check, rule, precision_rule=None):
                             witness="def f(**kwargs):\n    def h(): kwargs['x'] = 1\n    h(); return inner(**kwargs)")
     else:
         check.holds(rule, st, 'get_enclosing: None for the scope\'s own names, else the nearest enclosing binding, else None', key=key)
+
+
+def rule_attribute_handler(check, rule):
+    """C05.R11 (D41): `x.attr` evaluates `x`, and hands out something that can act on it later.  visit_Attribute (a) traverses the object
+    of the access when it is not a plain name (it may contain a forwarding call, or another access), and (b) for a plain name either
+    invalidates it like any other read (visits it) or taints the parameter marker it denotes -- `pop = kwargs.pop; pop('a')` empties
+    **kwargs without a method call on it ever appearing."""
+    vf = VisitorFacts(check.repo)
+    h = vf.handler('Attribute')
+    st0 = '%s:%d %s' % (vf.ci.module.relpath, vf.ci.node.lineno, vf.ci.key)
+    key = 'attribute-handler'
+    if h is None:
+        check.holds(rule, st0, 'no visit_Attribute: the generic traversal reaches the object of the access, whose name is invalidated like any read',
+                    key=key)
+        return
+    check.analysed(h)
+    selfn, nodep = h.params()[0][0], h.params()[0][1]
+    visits_value = [c for c in ast.walk(h.node) if isinstance(c, ast.Call) and isinstance(c.func, ast.Attribute) and isinstance(c.func.value, ast.Name)
+                    and c.func.value.id == selfn and ((c.func.attr == 'visit' and c.args and norm(c.args[0]) == '%s.value' % nodep)
+                                                      or (c.func.attr == 'generic_visit' and c.args and norm(c.args[0]) == nodep))]
+    taints = [a for a in ast.walk(h.node) if isinstance(a, ast.Assign) and any(isinstance(t, ast.Attribute) and t.attr == 'tainted' for t in a.targets)]
+    problems = []
+    if not visits_value:
+        problems.append('the object of the access is never visited (a forwarding call there -- inner(*args, **kwargs).real -- is not seen)')
+    from .rules_classes import dominated_by
+
+    def name_base(test, pol):
+        return isinstance(test, ast.Call) and norm(test.func) == 'isinstance' and len(test.args) == 2 and norm(test.args[0]) == '%s.value' % nodep \
+            and 'Name' in norm(test.args[1])
+    unconditional = [c for c in visits_value if not dominated_by(h, c, lambda t, p: name_base(t, not p))]
+    if not unconditional and not taints:
+        problems.append('a plain name is neither visited nor is the parameter it denotes tainted (pop = kwargs.pop; pop(...) goes unnoticed)')
+    if taints:
+        late = any(isinstance(c, ast.Call) and isinstance(c.func, ast.Attribute) and c.func.attr == 'append' and 'late_tainted' in norm(c.func.value)
+                   for c in ast.walk(h.node))
+        if not late and not unconditional:
+            problems.append('the taint is not put on the list that reaches calls recorded earlier (late_tainted) when it happens in a nested function')
+    if problems:
+        check.violation(rule, site_of(h, h.node), 'visit_Attribute: ' + '; '.join(problems), key=key,
+                        witness="def f(*args, **kwargs):\n    pop = kwargs.pop\n    pop('a', None)\n    return inner(*args, **kwargs)")
+    else:
+        check.holds(rule, site_of(h, h.node), 'visit_Attribute traverses the object of the access and %s' %
+                    ('visits a plain name like any read' if unconditional else 'taints the parameter a plain name denotes'), key=key)
